@@ -281,7 +281,7 @@ def run_harness(h, tier, rootdir, keep):
         if w['status'] != 'ok':
             res['status'] = 'inconclusive'; res['inconclusive'].append('witness run: %s %s' % (w['status'], w.get('detail', ''))); return res
         failed_loops = [r['property'] for r in w['results'] if 'unwinding assertion' in r.get('description', '') and r['status'] == 'FAILURE']
-        if not failed_loops or rounds >= (20 if h.get('paths') else 6): break
+        if not failed_loops or rounds >= (20 if h.get('paths') else 14): break
         grew = False
         for pr in failed_loops:
             m_ = re.fullmatch(r'(.*)\.unwind\.(\d+)', pr)
